@@ -168,6 +168,20 @@ def check_case(rec, case: dict) -> None:
         except Exception as e:  # noqa
             if tm.exact(t) < model.TIME_LIMIT_US:
                 dq.add("C01", "time", f"direct query at tick {t} (asked after {case['queries'][:case['queries'].index(t)][-3:]}) raised {harness.exc_str(e)}")
+    if not dq.items and case.get("queries") and len(case["text"]) % 5 == 3:
+        # a re-gridded song: the parsed map's FIRST tempo event inside a BPMEvents of another resolution (public constructor) is a
+        # one-tempo map of that resolution - whatever the event carries along from the chart that made it is not part of the new map
+        try:
+            import chartparse.sync as S_
+
+            res2 = 480 if truth["resolution"] != 480 else 192
+            be2 = S_.BPMEvents(events=[be[0]], resolution=res2)
+            tm2 = TempoMap(res2, [[0, truth["tempos"][0][1]]])
+            for t in case["queries"][:40]:
+                model.check_time(dq, tm2, t, us(be2.timestamp_at_tick(t)[0]), f"query of a one-tempo map built from the parsed map's first event with resolution {res2}")
+            rec.cls("queries_of_a_regridded_one_tempo_map")
+        except TypeError:
+            rec.mon("regridded_map_skipped")
     if not dq.items and case.get("queries") and (case.get("heavy") or case.get("shared_threads")):
         repeated_and_shared_use(rec, case, be, tm, dq)
     rec.ev(dq.evals.get("C01", 0))
